@@ -329,7 +329,10 @@ impl<'a> Interpreter<'a> {
                             return Err(CelError::value("Only strings can be used as Object keys"));
                         };
 
-                        map.insert(key, stack.pop_val()?);
+                        // entries are popped last to first: for a repeated key the entry
+                        // seen first here is the last one written, and that one wins
+                        let value = stack.pop_val()?;
+                        map.entry(key).or_insert(value);
                     }
 
                     stack.push_val(map.into());
